@@ -36,6 +36,12 @@ type c01Case struct {
 	PauseAt int `json:"pause_at,omitempty"`
 	// TLS: the connection is under (implicit) TLS; every segment is a record
 	TLS bool `json:"tls,omitempty"`
+	// FinalEOF: the client half-closes together with its last segment and
+	// the server's connection reports the end of the stream with the last
+	// octets (n > 0, io.EOF) instead of in a Read of its own - as io.Reader
+	// allows and crypto/tls does. How the end of the connection is reported
+	// has no bearing on a message that arrived in full.
+	FinalEOF bool `json:"final_eof,omitempty"`
 }
 
 // maxStretch is the length of the longest run of octets that ends in LF (the
@@ -90,6 +96,8 @@ func c01Run(c c01Case) Verdict {
 	if c.TLS {
 		cfg.TLS = "implicit"
 	}
+	finalEOF := c.FinalEOF && !pause && !c.TLS
+	cfg.EOFWithData = finalEOF
 	script := harness.Script{LMTPSession: c.Mode == 2,
 		DefaultData: &harness.DataPlan{Read: harness.ReadPlan{Sizes: c.Reads, Limit: -1, Retry: 2}, Honest: true}}
 	r := harness.NewRig(cfg, script)
@@ -107,6 +115,8 @@ func c01Run(c c01Case) Verdict {
 		w.WaitQuiet()
 		time.Sleep(50 * time.Millisecond)
 		w.Send(stream[c.PauseAt:])
+	} else if finalEOF {
+		w.SendCutsFinal(stream, c.Cuts)
 	} else {
 		w.SendCuts(stream, c.Cuts)
 	}
@@ -141,6 +151,9 @@ func c01Run(c c01Case) Verdict {
 	}
 	if c.TLS {
 		v.Classes = append(v.Classes, "under_tls")
+	}
+	if finalEOF {
+		v.Classes = append(v.Classes, "eof_with_last_octets")
 	}
 	if c.LineLimit > 0 && len(stream) > c.LineLimit {
 		v.Classes = append(v.Classes, "line_limit_on")
@@ -233,6 +246,7 @@ func c01Gen(t *rapid.T) c01Case {
 		}
 	}
 	c.TLS = rapid.IntRange(0, 7).Draw(t, "tls") == 0
+	c.FinalEOF = rapid.IntRange(0, 3).Draw(t, "final_eof") == 0
 	// a few paused transfers (each costs its pause in wall-clock time)
 	if len(stream) > 2 && rapid.IntRange(0, 999).Draw(t, "pause")%50 == 7 {
 		c.PauseAt = rapid.IntRange(1, len(stream)-1).Draw(t, "pause_at")
@@ -273,6 +287,7 @@ func c01Variant(word []byte, i int) c01Case {
 	switch i % 4 {
 	case 0:
 		c.Reads = []int{512}
+		c.FinalEOF = true // the whole stream and the end of the connection in one Read
 	case 1:
 		c.Cuts, c.Reads = every, []int{1}
 	case 2:
@@ -362,7 +377,7 @@ func FuzzC01(f *testing.F) {
 		if len(body) > 9000 {
 			return
 		}
-		c := c01Case{Body: body, Mode: int(readSeed>>8) % 3, Limit: readSeed&0x80 != 0}
+		c := c01Case{Body: body, Mode: int(readSeed>>8) % 3, Limit: readSeed&0x80 != 0, FinalEOF: readSeed&0x2000 != 0}
 		c.Reads = []int{int(readSeed&0x7f) + 1}
 		n := len(c01Stream(body))
 		if readSeed&0x4000 != 0 {
